@@ -478,7 +478,8 @@ def rule_r4(prog, res):
             # must be unreachable for them
             excl = any((not pol) and ("'bare'" in t or 'BARE' in t)
                        for t, pol in atoms) or any(
-                pol and ("'wrapped'" in t or 'WRAPPED' in t)
+                pol and ("'wrapped'" in t or 'WRAPPED' in t or
+                         "not _.endswith('bare')" in t)
                 for t, pol in atoms)
             # input messages are always generated (produce), whatever the
             # style: only marks on values that can be the user's class count
